@@ -9,7 +9,7 @@
 import json, os, random, itertools, time, threading
 import vlib, engine_lib as el
 
-FIX = dict(FixF4="TRUE", FixF9="TRUE")
+FIX = dict(FixF4="TRUE", FixF9="TRUE", FixF3="TRUE")
 ALL_W = '{"early", "after", "bothDiff", "bothSame", "spring"}'
 
 # property -> operators
